@@ -35,6 +35,16 @@ def tag_boundaries(text: str) -> list:
     return out
 
 
+_PFX_RE = re.compile(r"(?m)^[ >]+")
+_LINE_START_ESC = re.compile(r"\\(?=[-+*>#=|~`_])|(?<![\w\\])(\d+)\\(?=[.)])")
+
+
+def _strip_layout(t: str) -> str:
+    """Text without container prefixes, white space and the backslashes that protect a marker word (written when the word
+    started a line on some pass; kept for good by the renderer, see KF-C03-sticky-escape)."""
+    return re.sub(r"\s+", "", _LINE_START_ESC.sub(lambda m: m.group(1) or "", _PFX_RE.sub("", t)))
+
+
 class C02(DocProp):
     id = "C02"
     rule = ("cases: G-doc documents (profiles core, typo, tags) and plain paragraphs, each formatted under random points "
@@ -174,7 +184,9 @@ class C02(DocProp):
         # several listed mechanisms in one document: cumulative normalisation (ellipsis conversion, quote
         # conversion) must make the two passes equal and each normalisation used must be a listed mechanism
         if not o.get("plaintext"):
-            strip = lambda t: re.sub(r"\s+", "", re.sub(r"(?m)^[ >]+", "", t))  # noqa: E731
+            # (a converted run changes the line lengths, so the re-wrap may put another marker-like word first on a line and
+            # escape it, or take one away from a line start: such line-start escapes are part of the same re-wrap)
+            strip = _strip_layout
             ell = lambda t: t.replace(" …", "…").replace("… ", "…").replace("…", "...").replace(" ...", "...").replace("... ", "...")  # noqa: E731
             unq2 = lambda t: t.translate({0x201c: '"', 0x201d: '"', 0x2018: "'", 0x2019: "'"})  # noqa: E731
             a, b = o1, o2
